@@ -94,7 +94,9 @@ PROPS = {
                     level_text='PARTIAL.  Proved in Coq (coq/Props/C19.v): exactly one limiter wait per emitted recovery record, taken before the record is '
                                'emitted, none for any other op and none for main-consumer records, for all op sequences (C19_one_wait_per_emit, '
                                'C19_main_never_waits, C19_waits_equal_recovered, C19_spec_sound); window bound of an ideal token bucket: any admitted emission '
-                               'times satisfy #[s, s+d] <= burst + rate*d (C19_bucket_bound).  Measured, not proved: the limiter of a consumer built by the REAL '
+                               'times satisfy #[s, s+d] <= burst + rate*d (C19_bucket_bound); the limiter as a scheduler (one Wait per emission, Wait returns at the earliest tick with a token): '
+                               'for EVERY list of availability times the emissions obey that bound (C19_rate_bound_however_fast), Wait is exact (C19_wait_exact), only delays '
+                               '(C19_limit_only_delays) and does not delay the initial burst (C19_initial_burst_now).  Measured, not proved: the limiter of a consumer built by the REAL '
                                'constructor has (limit, burst) = (parallelrecoverymaxrate, 100); n recovery events take >= (n-100)/rate s (5 ms slack); '
                                'interleaved main-consumer events are not delayed.',
                     level_note='That golang.org/x/time/rate.Limiter is an ideal token bucket and wall-clock behaviour are outside any Gallina model: runtime '
